@@ -208,3 +208,12 @@ Example C18_urls_nonvacuous :
       (v2, {| c_body := [122]; c_mtime := 102; c_kind := EText |})]).
 Proof. vm_compute. reflexivity. Qed.
 Print Assumptions C18_urls_nonvacuous.
+
+(* a loader without a project root (explain --sources) has no cache: offline is a miss without a
+   request, normal and refresh send exactly one request and answer alike *)
+Theorem C18_no_root_policies : forall (H : str -> str) now ex srv,
+  fetch_noroot H Offline now ex srv = (OMiss, 0) /\
+  snd (fetch_noroot H Normal now ex srv) = 1 /\ snd (fetch_noroot H Refresh now ex srv) = 1 /\
+  fetch_noroot H Normal now ex srv = fetch_noroot H Refresh now ex srv.
+Proof. exact noroot_policies. Qed.
+Print Assumptions C18_no_root_policies.
